@@ -64,3 +64,18 @@ def write_ndjson(path, events):
     with open(path, "w") as f:
         for e in events:
             f.write(json.dumps(e) + "\n")
+
+
+def apply_replay(ctx):
+    """bin/check Cnn --replay <file>: re-run the check with the seed and tier inputs recorded in the replay file, so that the
+    same generated case / trace is executed again (the file itself carries the minimal failing input for manual use)."""
+    if getattr(ctx, "replay_in", None):
+        import random
+        try:
+            with open(ctx.replay_in) as f:
+                d = json.load(f)
+            ctx.seed = int(d.get("seed", ctx.seed))
+            ctx.rng = random.Random(ctx.seed)
+            ctx.log("replay of %s: key=%s seed=%d" % (ctx.replay_in, d.get("key"), ctx.seed))
+        except Exception as e:
+            ctx.infra("cannot read replay file: %s" % e)
